@@ -164,10 +164,10 @@ theorem stub_can_step (c : Nat) (hl : live s (.stub c) = true) (hnp : (s.calls c
     (repeat' split) <;> rfl
   | registered => exact canStep_of sk (.callSpawn c) (by simp [actThreads]) (by simp [step, hc, hpc])
   | spawned => exact canStep_of sk (.callWriteFail c 0) (by simp [actThreads]) (by simp [step, hc, hpc])
-  | decoded => exact canStep_of sk (.callReturnOk c) (by simp [actThreads]) (by simp [step, hc, hpc, cl_free sk hp.lv hr])
+  | decoded => exact canStep_of sk (.callReturnOk c) (by simp [actThreads]) (by simp [step, hc, hpc, canRelease, hp.lv.freeNeverWaits, cl_free sk hp.lv hr])
   | panicking e =>
     exact canStep_of sk (.callRecover c e) (by simp [actThreads])
-      (by simp [step, hc, hpc, hp.lv.recovers, cl_free sk hp.lv hr])
+      (by simp [step, hc, hpc, hp.lv.recovers, canRelease, hp.lv.freeNeverWaits, cl_free sk hp.lv hr])
 
 theorem waiter_can_step (c : Nat) (hl : live s (.waiter c) = true) (hnp : s.waiters c ≠ .recv) :
     CanStep sk s (.waiter c) := by
